@@ -152,6 +152,12 @@ def runFlowOk (st : St) (c : Call) : St × List String :=
   | "update" :: _ => callUpdate c st mstHook
   | "acc" :: _ => (st, callAcc "" c st.topo.n st.g)
   | "basins" :: _ => (st, callBasins "" st.topo.n st.g st.mask st.isBase)
+  | "pits" :: _ =>
+    -- outlets of the last delineation, pits judged against the base levels in force NOW
+    let seeds := ((findInp c "seeds").getD []).map natOf
+    let isBase := fromList false ((List.range st.topo.n).map (fun i => seeds.contains i))
+    let b := basins st.topo.n st.g st.mask isBase
+    (st, [line "outlets" (joinNats b.outlets), line "pits" (joinNats b.pits)])
   | "bgraph" :: _ => (st, callBgraph c st)
   | "spl" :: _ => (st, callSpl c st)
   | "kernel" :: _ => (st, callKernel c st)
